@@ -235,6 +235,23 @@ const CONV: [(&str, u32); 8] = [
 ];
 
 pub fn run(ctx: &mut Ctx) {
+
+    // the extension-type constant derived from a decoded variant is the variant's IANA type, whatever its contents
+    ctx.floor("variant-tags", 30 * 100);
+    ctx.sweep("variant-tags", crate::gen::EXT_GENERATORS as u64, |ctx, idx| {
+        let mut rng = crate::rng::Rng::new(idx ^ 0x7A6);
+        for _ in 0..120 {
+            let a = crate::gen::ext_variant(&mut rng, crate::gen::SMALL, idx as usize);
+            let e = a.expected();
+            let t = TlsExtensionType::from(&e);
+            ctx.eval();
+            ctx.count("variant-tags");
+            if t.0 != a.expected_tag() || u16::from(t) != a.expected_tag() {
+                ctx.violation(format!("c17:variant-tag:{}:expected={}:got={}", a.variant_name(), a.expected_tag(), t.0), serde_json::json!({"variant": a.variant_name(), "value": format!("{:.120?}", e)}));
+            }
+        }
+        ctx.shape(&("variant-tags", idx));
+    });
     let regs = registries();
     let total_rows: u64 = regs.iter().map(|r| r.rows.len() as u64).sum();
     let nrows = |r: &Reg| r.rows.len() as u64;
